@@ -236,6 +236,8 @@ def estimator_and_maths_frame_obligations(R):
 
 
 def run(R):
+    from engine.canary import run_canaries
+    run_canaries(R, ('e1', 'symx'))
     W = Worlds(R.seed)
     npts = 1
     scens = SCENS_QUICK if R.tier == 'quick' else SCENS_THOROUGH
